@@ -1,12 +1,15 @@
 #!/bin/bash
-# tools/seeded_regression.sh : run every kept seeded mutation against the quick check of the property it
-# breaks, on a scratch copy of the final tree. One line per mutation in /tmp/seeded_regress.log.
+# tools/seeded_regression.sh [k n] : run every kept seeded mutation (slice k of n) against the quick check of the
+# property it breaks, on a scratch copy of the final tree. One line per mutation in /tmp/seeded_regress_<k>.log.
+K=${1:-0}; N=${2:-1}
 cd /verif
-: > /tmp/seeded_regress.log
+: > /tmp/seeded_regress_$K.log
+i=0
 for d in seeded/*/; do
+  i=$((i+1)); [ $((i % N)) -eq $K ] || continue
   id=$(basename $d)
   prop=$(python3 -c "import json;print(json.load(open('$d/meta.json'))['breaks_property'])")
   patch=$d/patch.diff; [ -f $d/patch_rebased_on_final_head.diff ] && patch=$d/patch_rebased_on_final_head.diff
-  r=$(MUT_ARGS="${MUT_ARGS:-}" tools/mutant_check.sh $patch $prop 2>&1 | tail -1 | cut -c1-200)
-  echo "$id | $r" >> /tmp/seeded_regress.log
+  r=$(MR=/tmp/mut_repo_$K tools/mutant_check.sh $patch $prop 2>&1 | tail -1 | cut -c1-200)
+  echo "$id | $r" >> /tmp/seeded_regress_$K.log
 done
